@@ -1801,7 +1801,7 @@ func runC17(c *ctx) {
 	}
 	for rep := 0; rep < len(segs)*c.scale; rep++ {
 		seg := segs[rep%len(segs)]
-		sem := make(chan struct{}, 16)
+		sem := make(chan struct{}, vlib.Conc(16))
 		var wg sync.WaitGroup
 		for _, j := range jobs {
 			wg.Add(1)
